@@ -1,6 +1,8 @@
 (* C13 — property theorems only. *)
 From Coq Require Import ZArith List Bool.
 From IV Require Import Common.Int32 C12.Codec C12.Defs C11.Defs C11.Proofs C13.Defs C13.Proofs.
+From Coq Require String.
+From IV Require Import C13.Generated C13.Lazy.
 Import ListNotations.
 Local Open Scope Z_scope.
 
@@ -34,3 +36,22 @@ Theorem c13_defined_wins_partial : forall this other,
   (exists fl, fst (merge_with this other) = set_flags this fl) /\ (exists fl, fst (merge_with other this) = set_flags this fl).
 Proof. exact merge_with_defined_wins. Qed.
 Print Assumptions c13_defined_wins_partial.
+
+Import String.
+(* lazy loading is invisible: request_module only queues a file and every function of the query interface first reads what is queued, so for
+   EVERY history of load requests and queries each query is answered on everything requested before it.  The table [accessors] is generated
+   from interrogateDatabase.{I,cxx} of the tree under test by translate/accessors.py on every run: an accessor of the query interface that
+   stops calling check_latest() breaks the obligation query_api_flushes inside this proof. *)
+Theorem c13_lazy_loading_invisible : forall (file answer : Type) (ask : String.string -> list file -> answer) ops s,
+  uses_api file ops -> run file answer ask accessors s ops = spec file answer ask (loaded file s ++ pending file s) ops.
+Proof. exact lazy_loading_invisible. Qed.
+Print Assumptions c13_lazy_loading_invisible.
+
+(* an accessor that does not flush answers from the old database: request a file, ask at once *)
+Theorem c13_stale_without_flush_refuted :
+  let tbl := [("lookup_type_by_true_name"%string, false)] in
+  let ask := fun (_ : String.string) (fs : list nat) => List.length fs in
+  run nat nat ask tbl {| loaded := []; pending := [] |} [Request nat 7%nat; Query nat "lookup_type_by_true_name"%string] = [None; Some 0%nat]
+  /\ spec nat nat ask [] [Request nat 7%nat; Query nat "lookup_type_by_true_name"%string] = [None; Some 1%nat].
+Proof. exact stale_without_flush. Qed.
+Print Assumptions c13_stale_without_flush_refuted.
